@@ -18,6 +18,7 @@ import (
 	"tkestack.io/galaxy/pkg/api/galaxy/constant"
 	"tkestack.io/galaxy/pkg/api/k8s/schedulerapi"
 	"tkestack.io/galaxy/pkg/ipam/api"
+	galaxyv1alpha1 "tkestack.io/galaxy/pkg/ipam/apis/galaxy/v1alpha1"
 	galaxylisterpkg "tkestack.io/galaxy/pkg/ipam/client/listers/galaxy/v1alpha1"
 
 	"verif/harness/model"
@@ -85,6 +86,7 @@ type PodRec struct {
 	heldAtFilter     []string
 	reservedAtFilter []string
 	FilterConfGen    int  // configuration generation at the last filter
+	PoolSizeAtFilter int  // size of the pod's pool visible at the last filter (-1 = no Pool object)
 	Exempt           bool // its IP was legitimately de-configured by a reload
 	ProvAtBind       bool
 }
@@ -120,6 +122,7 @@ type Sim struct {
 	reloadDropped map[string]bool
 	confGen       int
 	pendingReload *model.Topo
+	lastBindPod   string
 	provFault     bool
 	simExtra
 }
@@ -215,6 +218,10 @@ func (s *Sim) genWorkloads(withTApp bool) {
 		case x < 8:
 			wl.Kind = KDp
 			wl.Pool = poolNames[rng.Intn(len(poolNames))]
+			if focus == "C07" {
+				wl.Pool = []string{"pa", "pa", "pb"}[rng.Intn(3)]
+				wl.Replicas = 2 + rng.Intn(3)
+			}
 		case x < 9 && withTApp:
 			wl.Kind = KTApp
 		default:
@@ -249,7 +256,7 @@ func (s *Sim) genWorkloads(withTApp bool) {
 	}
 	// a sized pool sometimes
 	for _, pn := range []string{"pa", "pb"} {
-		if rng.Intn(2) == 0 {
+		if rng.Intn(2) == 0 || focus == "C07" {
 			sz := 1 + rng.Intn(3)
 			s.W.SetPool(pn, sz, false)
 			s.poolSizes[pn] = sz
@@ -465,6 +472,17 @@ func (s *Sim) stepFilter(p *corev1.Pod) ([]string, error) {
 	}
 	r.FilterOK = err == nil && len(nodes) > 0
 	r.FilterConfGen = s.confGen
+	r.PoolSizeAtFilter = -1
+	if r.WL.Pool != "" {
+		if sz, ok := s.W.PoolSizeTruth(r.WL.Pool); ok {
+			r.PoolSizeAtFilter = sz
+		}
+		if o, ok, _ := s.W.PoolIdx.GetByKey("kube-system/" + r.WL.Pool); ok {
+			if sz := o.(*galaxyv1alpha1.Pool).Size; sz > r.PoolSizeAtFilter {
+				r.PoolSizeAtFilter = sz
+			}
+		}
+	}
 	res := errStr(err)
 	if err == nil {
 		res = "nodes=" + strings.Join(r.Offered, ",")
@@ -478,6 +496,7 @@ func (s *Sim) stepFilter(p *corev1.Pod) ([]string, error) {
 func (s *Sim) stepBind(p *corev1.Pod, node string) error {
 	r := s.rec(p)
 	r.ProvAtBind = s.W.Provider != nil
+	s.lastBindPod = string(p.UID)
 	err := s.W.Plugin.Bind(&schedulerapi.ExtenderBindingArgs{PodName: p.Name, PodNamespace: p.Namespace, PodUID: p.UID, Node: node})
 	s.W.DrainReleaseChan()
 	s.lastOpErr = err
